@@ -350,3 +350,87 @@ Lemma gap_step_refuted :
 Proof.
   repeat split; intros (r & H1 & H2); vm_compute in H1; inversion H1; subst r; vm_compute in H2; discriminate.
 Qed.
+
+(* ---- gap-aware subscript of a sequence WITHOUT gap characters: for every step > 0 it is the plain subscript ---- *)
+Lemma nogaps_from_gapfree g : forall d off, (forall c, In c d -> in_gap g c = false) ->
+  length (nogaps_from g off d) = length d /\
+  forall k dflt, (k < length d)%nat -> nth k (nogaps_from g off d) dflt = off + Z.of_nat k.
+Proof.
+  induction d as [|c d IH]; intros off H; cbn [nogaps_from length].
+  - split; [reflexivity|]. intros k dflt Hk. lia.
+  - rewrite (H c (or_introl eq_refl)). destruct (IH (off + 1) (fun x Hx => H x (or_intror Hx))) as [H1 H2].
+    cbn [length]. split; [rewrite H1; reflexivity|]. intros k dflt Hk. destruct k as [|k]; cbn [nth]; [lia|].
+    rewrite H2 by lia. lia.
+Qed.
+Lemma adj_gapfree g d i : (forall c, In c d -> in_gap g c = false) ->
+  adj (nogaps g d) (Z.of_nat (length d)) (Some i) = Some (norm (Z.of_nat (length d)) i).
+Proof.
+  intros H. destruct (nogaps_from_gapfree g d 0 H) as [Hlen Hnth]. unfold adj, nogaps, norm. rewrite Hlen.
+  set (n := Z.of_nat (length d)). f_equal.
+  destruct (i <? 0) eqn:E1.
+  - destruct (Z.max (i + n) 0 <? n) eqn:E2.
+    + rewrite Hnth by lia. lia.
+    + lia.
+  - destruct (i <? n) eqn:E2.
+    + rewrite Hnth by lia. lia.
+    + lia.
+Qed.
+Lemma adj_bound_norm len step i : 0 <= len -> 0 < step ->
+  adj_bound len step (norm len i) = adj_bound len step i.
+Proof.
+  intros Hl Hs. unfold adj_bound, norm.
+  repeat match goal with |- context [if ?b then _ else _] => destruct b eqn:? end; lia.
+Qed.
+Lemma gap_free_positive_step g s sl : (forall c, In c (data s) -> in_gap g c = false) ->
+  match sl_step sl with None => True | Some k => 0 < k end ->
+  seq_getitem (Some g) s (ISlice sl) = seq_getitem None s (ISlice sl).
+Proof.
+  intros Hfree Hstep. unfold seq_getitem, adjust_index. cbn [pyget].
+  set (n := Z.of_nat (length (data s))).
+  assert (Hsi : slice_indices n (mkslice (adj (nogaps g (data s)) n (sl_start sl)) (adj (nogaps g (data s)) n (sl_stop sl)) (sl_step sl))
+                = slice_indices n sl).
+  { unfold slice_indices. cbn [sl_start sl_stop sl_step].
+    set (step := match sl_step sl with Some k => k | None => 1 end).
+    assert (Hpos : 0 < step) by (unfold step; destruct (sl_step sl); [exact Hstep|lia]).
+    destruct (step =? 0); [reflexivity|].
+    assert (Hn : 0 <= n) by (unfold n; lia).
+    assert (Hb : forall o dflt, match adj (nogaps g (data s)) n o with None => dflt | Some i => adj_bound n step i end
+                              = match o with None => dflt | Some i => adj_bound n step i end).
+    { intros [i|] dflt; [|reflexivity]. unfold n. rewrite adj_gapfree by exact Hfree. apply adj_bound_norm; assumption. }
+    rewrite !Hb. reflexivity. }
+  unfold getslice. fold n. rewrite Hsi. reflexivity.
+Qed.
+
+(* ---- subscripts commute with element-wise maps: the slice of a sequence holding lower case is the slice of the
+   upper-cased residue string ---- *)
+Lemma take_step_map {A B} (f : A -> B) : forall n cur step l, take_step n cur step (map f l) = map f (take_step n cur step l).
+Proof.
+  induction n as [|n IH]; intros cur step l; cbn [take_step]; [reflexivity|].
+  rewrite nth_error_map. destruct (nth_error l (Z.to_nat cur)); cbn [option_map map]; [|reflexivity]. rewrite IH. reflexivity.
+Qed.
+Lemma getslice_map {A B} (f : A -> B) l s :
+  getslice (map f l) s = match getslice l s with Ok r => Ok (map f r) | Err e => Err e end.
+Proof.
+  unfold getslice. rewrite map_length. destruct (slice_indices (Z.of_nat (length l)) s) as [[[[a b] c] n]|]; [|reflexivity].
+  destruct (n <=? 0); [reflexivity|]. destruct (c =? 1).
+  - rewrite skipn_map, firstn_map. reflexivity.
+  - rewrite take_step_map. reflexivity.
+Qed.
+Lemma pyget_map {A B} (f : A -> B) l ix :
+  pyget (map f l) ix = match pyget l ix with Ok r => Ok (map f r) | Err e => Err e end.
+Proof.
+  destruct ix as [i|s]; cbn [pyget]; [|apply getslice_map].
+  unfold getitem. rewrite map_length, nth_error_map.
+  destruct (_ || _); [reflexivity|]. destruct (nth_error l _); reflexivity.
+Qed.
+Lemma slice_lower_is_slice_of_upper s ix :
+  seq_getitem None s ix = match pyget (py_upper (data s)) ix with Ok r => Ok (mkseq r (sid s)) | Err e => Err e end /\
+  seq_getitem None s ix = seq_getitem None (new_seq (data s) (sid s)) ix.
+Proof.
+  assert (H : seq_getitem None s ix = match pyget (py_upper (data s)) ix with Ok r => Ok (mkseq r (sid s)) | Err e => Err e end).
+  { unfold seq_getitem, adjust_index, py_upper. rewrite pyget_map. destruct (pyget (data s) ix); reflexivity. }
+  split; [exact H|]. rewrite H. unfold seq_getitem, adjust_index, new_seq. cbn [data sid].
+  destruct (pyget (py_upper (data s)) ix) as [r|e] eqn:E; [|reflexivity].
+  f_equal. f_equal. symmetry. unfold py_upper in E. rewrite pyget_map in E. destruct (pyget (data s) ix); inversion E.
+  apply py_upper_idem.
+Qed.
